@@ -108,7 +108,9 @@ def join(a, b):
         extra = a.extra if a.extra == b.extra else (
             (a.extra or frozenset()) | (b.extra or frozenset())
             if a.kind == 'cnt' else None)
-        return V(a.kind, a.space | b.space, extra)
+        lay = a.elems if a.elems == b.elems else None
+        return V(a.kind, a.space | b.space, extra,
+                 elems=lay if a.kind == 'pos' else None)
     if a == b:
         return a
     return UNK
@@ -285,7 +287,7 @@ class SpaceEval(object):
 
     def elem_of(self, v):
         if v.kind == 'pos':
-            return V('pos', v.space)
+            return V('pos', v.space, v.extra)
         if v.kind == 'cnt':
             return V('cntelem', v.space, v.extra)
         return UNK
@@ -336,7 +338,7 @@ class SpaceEval(object):
             if r.kind in ('cnt', 'cntelem') and l.extra != r.extra \
                     and l.extra is not None:
                 return UNK
-            return V('pos', l.space, l.extra)
+            return V('pos', l.space, l.extra, elems=l.elems)
         if isinstance(e.op, ast.Add) and r.kind == 'pos' \
                 and l.kind in ('unk', 'cntelem'):
             return V('pos', r.space, r.extra)
@@ -380,15 +382,21 @@ class SpaceEval(object):
             idx = env.get(sl.id, UNK)
             if base.kind in ('arr', 'cnt', 'pos') and idx.kind in (
                     'idx', 'arr'):
-                self.oblige_idx(e, base, idx, sl)
                 op = ('g', self._name_id(sl))
+                if base.kind == 'pos':
+                    # an array of positions is laid out like the runs it
+                    # was computed from; a subset of it still holds
+                    # positions of the same space
+                    lay = base.elems
+                    if isinstance(lay, frozenset):
+                        self.oblige_idx(e, V('arr', lay), idx, sl)
+                        lay = frozenset(ch + (op,) for ch in lay)
+                    return V('pos', base.space, base.extra, elems=lay)
+                self.oblige_idx(e, base, idx, sl)
                 sp = frozenset(ch + (op,) for ch in base.space) \
                     if base.space is not None else None
                 if base.kind == 'cnt':
                     return V('cnt', sp, (base.extra or frozenset()) | {op})
-                if base.kind == 'pos':
-                    # a subset of positions: still positions of the space
-                    return V('pos', base.space, base.extra)
                 return V('arr', sp)
             return UNK
         self.ev(sl, env)
@@ -446,11 +454,13 @@ class SpaceEval(object):
                                  if ch and ch[-1] == ('uniq',))
                 if len(base) == len(cnt.space):
                     # inclusive prefix sums: run ends; minus the counts =
-                    # run starts.  Both are positions of the counted array
-                    return V('pos', base, frozenset())
+                    # run starts.  Both are positions of the counted array;
+                    # the array of positions itself is laid out like the
+                    # counts (one entry per run): kept in .elems
+                    return V('pos', base, frozenset(), elems=cnt.space)
                 return UNK
             comp = frozenset(ch + (('compact',),) for ch in cnt.space)
-            return V('pos', comp, cnt.extra)
+            return V('pos', comp, cnt.extra, elems=cnt.space)
         if nm == 'zip' and isinstance(f, ast.Name):
             return V('tuple', extra='zip', elems=tuple(args))
         if nm == 'astype' and isinstance(f, ast.Attribute):
